@@ -144,9 +144,9 @@ IDIOMS = [
     # R6 iterator adaptors without a usable vstd spec -> shim helper with assumed contract
     ('R6.all_is_zero', r'([A-Za-z_][A-Za-z0-9_\.]*(?:\[[^\]\[]*\])?)\.iter\(\)\.all\(Zero::is_zero\)',
      r'shim::iter_all_is_zero(&\1)'),
-    ('R6.take_while_rev_zero', r'([A-Za-z_][A-Za-z0-9_\.]*)\.iter\(\)\.rev\(\)\.take_while\(\|i\| \*\*i == 0\)\.count\(\)',
+    ('R6.take_while_rev_zero', r'([A-Za-z_][A-Za-z0-9_\.]*)\.iter\(\)\.rev\(\)\.take_while\(\|(\w+)\| (?:\*\*\2 == 0|0 == \*\*\2)\)\.count\(\)',
      r'shim::count_trailing_zero_digits_be(&\1)'),
-    ('R6.any_nonzero', r'([A-Za-z_][A-Za-z0-9_\.]*)\.iter\(\)\.any\(\|&d\| d != 0\)',
+    ('R6.any_nonzero', r'([A-Za-z_][A-Za-z0-9_\.]*)\.iter\(\)\.any\(\|&(\w+)\| (?:\2 != 0|0 != \2)\)',
      r'shim::iter_any_nonzero(&\1)'),
     ('R6.zip_all_eq', r'([A-Za-z_][A-Za-z0-9_]*)\.iter\(\)\.zip\(([A-Za-z_][A-Za-z0-9_]*)\.iter\(\)\)\.all\(\|\(digit_a, digit_b\)\| digit_a == digit_b\)',
      r'shim::slices_equal(&\1, &\2)'),
@@ -159,8 +159,8 @@ IDIOMS = [
     ('R6.rev_digits_iter', r'let mut (\w+) = (\w+)\.iter\(\)\.rev\(\);', r'let mut \1 = shim::RevDigits::new(&\2);'),
     ('R6.rev_iter_all_zero', r'\b([A-Za-z_][A-Za-z0-9_]*)\.all\(Zero::is_zero\)', r'\1.all_zero()'),
     # R6: ASCII digit idioms of the formatter
-    ('R6.all_ascii_zero', r'([A-Za-z_][A-Za-z0-9_]*)\.iter\(\)\.all\(\|&d\| d == b\'0\'\)', r'shim::iter_all_ascii_zero(&\1)'),
-    ('R6.rposition_not_nine', r'([A-Za-z_][A-Za-z0-9_]*)\.iter\(\)\.rev\(\)\.position\(\|&d\| d != b\'9\'\)', r'shim::rposition_not_nine(&\1)'),
+    ('R6.all_ascii_zero', r'([A-Za-z_][A-Za-z0-9_]*)\.iter\(\)\.all\(\|&(\w+)\| (?:\2 == b\'0\'|b\'0\' == \2)\)', r'shim::iter_all_ascii_zero(&\1)'),
+    ('R6.rposition_not_nine', r'([A-Za-z_][A-Za-z0-9_]*)\.iter\(\)\.rev\(\)\.position\(\|&(\w+)\| (?:\2 != b\'9\'|b\'9\' != \2)\)', r'shim::rposition_not_nine(&\1)'),
     ('R2.split_first_ref', r'let \(&([a-z_0-9]+), ([a-z_0-9]+)\) = ([^;]*?)\.split_first\(\)\.unwrap_or\(\(&b\'0\', &\[\]\)\);',
      r'let (\1__r, \2) = shim::split_first_or_zero(\3); let \1 = *\1__r;'),
     ('R6.fill_prefix', r'fill_slice\(&mut ([A-Za-z_][A-Za-z0-9_]*)\[\.\.([^\]]+)\], b\'0\'\);', r'shim::fill_prefix(\1, \2, 48u8);'),
@@ -472,14 +472,17 @@ def _consistent_renames(old, new):
             if a.kind == 'ident' and b.kind == 'ident' and a.text not in _RUST_KEYWORDS and b.text not in _RUST_KEYWORDS:
                 if cand.setdefault(a.text, b.text) != b.text:
                     bad.add(a.text)
-    old_names = set(t.text for t in old if t.kind == 'ident')
-    new_names = set(t.text for t in new if t.kind == 'ident')
+    # (an identifier after `.` is a field or method, not an occurrence of a local of that name: `frac.trailing_zeros()`)
+    def _is_name(toks, idx):
+        return toks[idx].kind == 'ident' and not (idx > 0 and toks[idx - 1].text == '.')
+    old_names = set(t.text for k, t in enumerate(old) if _is_name(old, k))
+    new_names = set(t.text for k, t in enumerate(new) if _is_name(new, k))
     # second source of candidates: a LOCAL name (bound by `let`, a closure bar or a pattern) that vanished, paired with a name
     # that appeared, when both occur equally often and in the same relative order of first occurrence
     def _counts(toks):
         c, first = {}, {}
         for idx, t in enumerate(toks):
-            if t.kind == 'ident':
+            if _is_name(toks, idx):
                 c[t.text] = c.get(t.text, 0) + 1
                 first.setdefault(t.text, idx)
         return c, first
@@ -566,13 +569,31 @@ def merge(annotated_code, anns, new_code, body_hints=True):
     # for every old occurrence, the name it has now; an annotation then uses, for each local it mentions, the current name of the
     # nearest occurrence before it.
     pos_name = {}
+    def _lives_on(nm, k):
+        """the identifier nm occurs in the new text after position k, before the end of the enclosing block"""
+        depth = 0
+        q = k + 1
+        while q < len(new):
+            tx = new[q].text
+            if tx in ('(', '[', '{'):
+                depth += 1
+            elif tx in (')', ']', '}'):
+                depth -= 1
+                if depth < 0:
+                    return False
+            elif new[q].kind == 'ident' and tx == nm and new[q - 1].text != '.':
+                return True
+            q += 1
+        return False
     for tag, i1, i2, j1, j2 in sm.get_opcodes():
         if tag == 'replace' and (i2 - i1) == (j2 - j1):
             pairs = [(old[i1 + q], new[j1 + q]) for q in range(i2 - i1)]
             if all(a.text == b.text or (a.kind == 'ident' and b.kind == 'ident' and a.text not in _RUST_KEYWORDS and b.text not in _RUST_KEYWORDS)
                    for a, b in pairs):
                 for q, (a, b) in enumerate(pairs):
-                    if a.text != b.text:
+                    # (not a renaming if the old name lives on in the same block: a statement split in two, `let e = a + b - 1` ->
+                    # `let d = a; let e = b + d - 1`, aligns `e` with `d`)
+                    if a.text != b.text and not _lives_on(a.text, j1 + q):
                         pos_name[i1 + q] = b.text
     # bindings: `let [mut] a` whose `let` keyword is aligned with a `let [mut] b` of the new text gives a -> b at that binding,
     # whatever else changed in the statement
@@ -610,7 +631,8 @@ def merge(annotated_code, anns, new_code, body_hints=True):
                 names = set([old[ko].text, new[kn].text]) | set(ren) | set(ren.values()) | set(pos_name.values())
                 so2 = [x for x in so if x not in names]
                 sn2 = [x for x in sn if x not in names]
-                if new[kn].text not in old_names_all and difflib.SequenceMatcher(a=sorted(so2), b=sorted(sn2), autojunk=False).ratio() >= 0.75:
+                if new[kn].text not in old_names_all and not _lives_on(old[ko].text, kn) \
+                        and difflib.SequenceMatcher(a=sorted(so2), b=sorted(sn2), autojunk=False).ratio() >= 0.75:
                     pos_name[ko] = new[kn].text
     _bind_pass()
     old_ident_pos = {}
@@ -707,6 +729,19 @@ def merge(annotated_code, anns, new_code, body_hints=True):
         txt = _scoped_rename(txt, i)
         stmt_hint = kind != 'inline' and not _is_clause(txt) and not re.match(r'^\s*\w+:\s*$', txt)
         cands = []
+        if stmt_hint and i < len(old) and old[i].text == '}':
+            # a hint at the very end of a block whose header (`None => {`, `if x < 10 {`, `Some(n) => {`) names exactly one block
+            # of the old and of the new text goes to the end of that block, whatever happened to the statements inside it or to
+            # the order of the blocks (exchanged match arms / if branches with rewritten bodies)
+            nb = _block_by_header(old_txt, new_txt, _open_of(old_txt, i))
+            if nb is not None:
+                ne = _close_of(new_txt, nb)
+                if ne is not None and _at_stmt_boundary(new, ne):
+                    cands.append(ne)
+        if stmt_hint and i > 0 and i < len(old) and old[i - 1].text == '{':
+            nb = _block_by_header(old_txt, new_txt, i - 1)
+            if nb is not None:
+                cands.append(nb + 1)
         if i < len(old) and old[i].text == '}' and (i - 1) in o2n and stmt_hint:
             # a hint at the very end of a block belongs to the statement before it, not to whatever follows the closing brace
             # (the two branches of an `if` may have been exchanged)
@@ -720,6 +755,26 @@ def merge(annotated_code, anns, new_code, body_hints=True):
             cands.append(len(new))
         if (i - 1) in o2n:
             cands.append(o2n[i - 1] + 1)
+        blk = None
+        if stmt_hint and i <= len(old):
+            # block identity: a hint written inside `Ordering::Greater => {` / `if x < 10 {` / `None => {` stays inside the block
+            # with that header (if exactly one block of the old and of the new text has it); candidates elsewhere are images of
+            # look-alike statements in another arm / branch
+            ob_ = _open_of(old_txt, i)
+            nb_ = _block_by_header(old_txt, new_txt, ob_)
+            if nb_ is not None:
+                ne_ = _close_of(new_txt, nb_)
+                oe_ = _close_of(old_txt, ob_)
+                if ne_ is not None and oe_ is not None:
+                    blk = (ob_, oe_, nb_, ne_)
+                    cands = [c for c in cands if nb_ < c <= ne_ and _open_of(new_txt, c) == nb_]
+        cands0 = list(cands)
+        if stmt_hint and cands and drift:
+            # ... and (in changed code) only where every local it names exists already: a candidate that is the image of a
+            # statement FOLLOWING the hint may have moved up, above the statements the hint talks about
+            need_ = _need_pos(old, new, txt, _cur_name, blk)
+            if need_ is not None:
+                cands = [c for c in cands if _decl_done(new, need_, c)]
         if stmt_hint:
             # a statement-level hint goes to the first candidate that is a statement boundary of the new text
             good = [c for c in cands if _at_stmt_boundary(new, c)]
@@ -732,6 +787,19 @@ def merge(annotated_code, anns, new_code, body_hints=True):
             while k >= 0 and k not in o2n:
                 k -= 1
             j = (o2n[k] + 1) if k >= 0 else 0
+            wj = _window_place(old, new, o2n, i, j, txt, _cur_name, blk) if stmt_hint else None
+            if wj is None and stmt_hint and cands0:
+                # the name test is a heuristic: rather an unfiltered candidate than no position at all
+                good0 = [c for c in cands0 if _at_stmt_boundary(new, c)]
+                wj = good0[0] if good0 else None
+            if wj is not None and not body_hints:
+                lost += 1
+                continue
+            if wj is not None:
+                # the statements around the hint were rewritten (split, merged, permuted): it goes to the first statement boundary
+                # between the images of the nearest unchanged neighbours, in the same block, at which every local it names exists
+                placed.setdefault(wj, []).append(txt)
+                continue
             lost += 1
             if kind != 'inline' and not _is_clause(txt):
                 # a proof hint whose anchor statement changed is dropped rather than placed approximately (a misplaced
@@ -822,6 +890,195 @@ def _is_signature_level(new, j, txt):
                 depth -= 1
         k -= 1
     return True
+
+
+def _open_of(txt, i):
+    """index of the `{` of the block that encloses token position i (i itself may be its `}`)"""
+    depth = 0
+    k = i - 1
+    while k >= 0:
+        if txt[k] in (')', ']', '}'):
+            depth += 1
+        elif txt[k] in ('(', '[', '{'):
+            if depth == 0:
+                return k if txt[k] == '{' else None
+            depth -= 1
+        k -= 1
+    return None
+
+
+def _close_of(txt, ob):
+    depth = 0
+    for k in range(ob, len(txt)):
+        if txt[k] in ('(', '[', '{'):
+            depth += 1
+        elif txt[k] in (')', ']', '}'):
+            depth -= 1
+            if depth == 0:
+                return k if txt[k] == '}' else None
+    return None
+
+
+def _header_sig(txt, ob):
+    """the tokens between the previous statement / arm boundary and the `{` at ob (at most 14)"""
+    out = []
+    depth = 0
+    k = ob - 1
+    while k >= 0 and len(out) < 14:
+        t = txt[k]
+        if t in (')', ']', '}'):
+            if t == '}' and depth == 0:
+                break
+            depth += 1
+        elif t in ('(', '[', '{'):
+            if depth == 0:
+                break
+            depth -= 1
+        elif t in (';', ',') and depth == 0:
+            break
+        out.append(t)
+        k -= 1
+    return tuple(reversed(out))
+
+
+def _block_by_header(old_txt, new_txt, ob):
+    if ob is None:
+        return None
+    sig = _header_sig(old_txt, ob)
+    if len(sig) < 2:
+        return None
+    n_old = sum(1 for k, t in enumerate(old_txt) if t == '{' and _header_sig(old_txt, k) == sig)
+    hits = [k for k, t in enumerate(new_txt) if t == '{' and _header_sig(new_txt, k) == sig]
+    if n_old == 1 and len(hits) == 1:
+        return hits[0]
+    return None
+
+
+def _window_place(old, new, o2n, i, lo, txt, cur_name, block=None):
+    """placement of a statement-level hint whose anchor (old token i) and predecessor were both rewritten; see the call site.
+    Proof hints only assert / call lemmas, so a position cannot make a false claim pass; the window keeps them between the same
+    unchanged neighbours, the name test keeps the text compilable."""
+    # neighbours: the nearest old tokens before / after the hint that are matched as part of a run of three consecutive
+    # tokens (a single matched `=` or `let` inside rewritten statements says nothing about position)
+    def run(k, step):
+        return all((k + step * q) in o2n and o2n[k + step * q] == o2n[k] + step * q for q in range(3))
+    if block is None:
+        k1 = i - 1
+        while k1 >= 2 and not run(k1, -1):
+            k1 -= 1
+        lo = (o2n[k1] + 1) if k1 >= 2 else lo
+        k2 = i
+        while k2 + 2 < len(old) and not (run(k2, 1) and o2n[k2] >= lo):
+            k2 += 1
+        hi = o2n[k2] if k2 + 2 < len(old) else len(new)
+    else:
+        # the hint stays inside the block it was written in (ob..oe of the old text, nb..ne of the new text): only neighbours
+        # of the old block whose images lie in the new block count
+        ob, oe, nb, ne = block
+        k1 = i - 1
+        while k1 - 2 > ob and not (run(k1, -1) and nb < o2n[k1] - 2 and o2n[k1] < ne):
+            k1 -= 1
+        lo = (o2n[k1] + 1) if k1 - 2 > ob else nb + 1
+        k2 = i
+        while k2 + 2 < oe and not (run(k2, 1) and nb < o2n[k2] and o2n[k2] + 2 < ne and o2n[k2] >= lo):
+            k2 += 1
+        hi = o2n[k2] if k2 + 2 < oe else ne
+    # the run may end inside the first tokens of a statement (`let` of a rewritten binding): back to the start of that statement
+    while lo > 0 and not _at_stmt_boundary(new, lo) and new[lo - 1].text not in '([{)]}':
+        lo -= 1
+    if lo > hi:
+        return None
+    need = _need_pos(old, new, txt, cur_name, block)
+    if need is None:
+        return None
+    depth = 0
+    for pos in range(lo, hi + 1):
+        if pos > lo:
+            t = new[pos - 1]
+            if t.kind == 'punct' and t.text in '([{':
+                depth += 1
+            elif t.kind == 'punct' and t.text in ')]}':
+                depth -= 1
+                if depth < 0:
+                    return None
+        if depth == 0 and _at_stmt_boundary(new, pos) and _decl_done(new, need, pos):
+            return pos
+    return None
+
+
+def _decl_done(new, need, pos):
+    """`need` is the declaration site of the last local a hint names (or the start of the body): the hint must come after the
+    END of the statement that contains it"""
+    if pos < need:
+        return False
+    if need > 0 and new[need - 1].text == '{':
+        return True
+    depth = 0
+    q = need
+    while q < len(new):
+        tt = new[q].text
+        if tt in ('(', '[', '{'):
+            depth += 1
+        elif tt in (')', ']', '}'):
+            depth -= 1
+            if depth < 0:
+                break
+        elif tt == ';' and depth == 0:
+            break
+        q += 1
+    return pos > q
+
+
+def _need_pos(old, new, txt, cur_name, block):
+    """position in the new text after which every exec local named by the hint exists (None: one of them is gone)"""
+    # exec locals named by the hint: identifiers of the old body (not callee / path / field names), under their current names
+    old_idents = {}
+    for k, t in enumerate(old):
+        if t.kind == 'ident' and t.text not in old_idents:
+            nxt = old[k + 1].text if k + 1 < len(old) else ''
+            prv = old[k - 1].text if k > 0 else ''
+            if nxt in ('(', '::', '!') or prv in ('.', '::'):
+                continue
+            old_idents[t.text] = k
+    refs = set()
+    for m in re.finditer(r'(?<![.\w:])([A-Za-z_][A-Za-z0-9_]*)\b(?!\s*(?:\(|::|!))', txt):
+        nm = m.group(1)
+        if nm in _RUST_KEYWORDS or re.match(r'^(?:[iu](?:8|16|32|64|128|size)|f32|f64|bool|char|str|int|nat|Some|None|Ok|Err)$', nm):
+            continue
+        if nm in old_idents:
+            refs.add(cur_name(old_idents[nm]) if nm not in ('self',) else nm)
+    first = {}
+    for q, t in enumerate(new):
+        if t.kind == 'ident' and t.text not in first:
+            first[t.text] = q
+    need = 0
+    for nm in refs:
+        if nm == 'self':
+            continue
+        if nm not in first:
+            return None
+        decl = first[nm]
+        if block is not None:
+            # a binding of that name inside the block takes precedence over an earlier homonym
+            for q in range(block[2] + 1, block[3]):
+                if new[q].kind == 'ident' and new[q].text == nm and new[q - 1].text in ('let', 'mut'):
+                    decl = q
+                    break
+        need = max(need, decl)
+    # names bound in the signature (or none at all): everything from the start of the body on qualifies
+    body_open = 0
+    pd = 0
+    for q, t in enumerate(new):
+        if t.kind == 'punct' and t.text in '([':
+            pd += 1
+        elif t.kind == 'punct' and t.text in ')]':
+            pd -= 1
+        elif t.kind == 'punct' and t.text == '{' and pd == 0:
+            body_open = q
+            break
+    if need <= body_open:
+        need = body_open + 1
+    return need
 
 
 def _at_stmt_boundary(new, j):
